@@ -64,6 +64,35 @@ def kernel_drops(port):
     return 0
 
 
+def transports_held_by(obj, depth=3):
+    """Every object reachable from obj's attributes (through dicts, lists, tuples, sets; a few levels deep) that looks like
+    an asyncio transport.  Used only to tidy up after a tree that leaves sockets behind."""
+    found, seen = [], set()
+
+    def walk(x, d):
+        if id(x) in seen or d < 0:
+            return
+        seen.add(id(x))
+        if isinstance(x, asyncio.BaseTransport) or (hasattr(x, "close") and hasattr(x, "get_extra_info") and hasattr(x, "is_closing")):
+            found.append(x)
+            return
+        if isinstance(x, dict):
+            for v in list(x.values()):
+                walk(v, d - 1)
+        elif isinstance(x, (list, tuple, set, frozenset)):
+            for v in list(x):
+                walk(v, d - 1)
+        elif hasattr(x, "__dict__") and d > 0 and type(x).__module__.startswith("aioswitcher"):
+            for v in list(vars(x).values()):
+                walk(v, d - 1)
+    try:
+        for v in list(vars(obj).values()):
+            walk(v, depth)
+    except TypeError:
+        pass
+    return found
+
+
 class Rig:
     def __init__(self, nports=1):
         self.ports = net.udp_ports(nports)
